@@ -359,12 +359,23 @@ func c11PPOnce(c c11Case, limit time.Duration) error {
 	return nil
 }
 
+// c11Confirmed: a withheld-output failure was already confirmed with the long limit in this
+// process; the shrinker's further attempts then use a short limit (they only decide how small
+// the reported case gets, never the verdict).
+var c11Confirmed bool
+
 func c11PPOracle(c c11Case) error {
+	if c11Confirmed {
+		return c11PPOnce(c, 2*time.Second)
+	}
 	err := c11PPOnce(c, 20*time.Second)
 	if err != nil && bytes.HasPrefix([]byte(err.Error()), []byte("WITHHELD")) {
 		// A time limit is never a verdict by itself: confirm with a much longer one.
 		statsFor("C11").note("a 20s read limit tripped; re-running the session with 120s")
-		return c11PPOnce(c, 120*time.Second)
+		err = c11PPOnce(c, 120*time.Second)
+		if err != nil && bytes.HasPrefix([]byte(err.Error()), []byte("WITHHELD")) {
+			c11Confirmed = true
+		}
 	}
 	return err
 }
